@@ -596,6 +596,8 @@ fn menu(base: &Msg, two_byte: bool) -> Vec<Corr> {
         add("flags^optional", Op::Flag(0x80));
         add("flags^transitive", Op::Flag(0x40));
         add("flags^partial", Op::Flag(0x20));
+        // both class bits at once: a well-known attribute arrives as optional non-transitive (0x80) and vice versa
+        add("flags^optional+transitive", Op::Flag(0xc0));
         add("dup", Op::DupDiff);
         add("dup-adjacent", Op::DupAdj);
         if matches!(it.code, 1 | 2 | 3) {
@@ -1158,8 +1160,11 @@ pub fn reference(frame: &[u8], two_byte: bool, role: Role) -> Expect {
             || (ref_flags(code).is_some() && a.flags & 0xc0 == 0x80) // optional non-transitive on the wire
             || matches!(code, 6 | 7)                             // RFC 7606 7.6 / 7.7: attribute discard
             || (external && code == 5);                          // RFC 7606 7.5: ignored from external peers
+        // a well-known mandatory attribute cannot be "kept out": a route without it lacks a
+        // mandatory attribute, which is itself treat-as-withdraw (RFC 7606 3 d)
+        let mandatory = matches!(code, 1 | 2) || (code == 3 && e.has_legacy_nlri);
         let f = Fault { code, block: false, class: class.to_string(), why };
-        if discardable { e.disc.push(f) } else { e.hard.push(f) }
+        if discardable && !mandatory { e.disc.push(f) } else { e.hard.push(f) }
     }
     // AS4_* faulty: the plain AS_PATH / AGGREGATOR must be used (2-octet sessions)
     if two_byte {
@@ -1792,7 +1797,7 @@ pub fn run(replay: Option<&str>) -> Report {
     rep.distinct_nontrivial = shared.count();
     rep.exhaustive = true;
     rep.rule = format!(
-        "valid UPDATE frames built by hand (shapes legacy reach+withdraw / MP_REACH+MP_UNREACH v6 / both; all {} attribute kinds; ascending and descending order; 2- and 4-octet AS) x every entry of the corruption menu (per attribute: length field +-1/0 raw and consistent, optional/transitive/partial flag flips, illegal values, duplicate, omission; per block: unknown well-known, cut / total-length at every attribute boundary and 4 positions inside every attribute, total length +1/+NLRI/past end, withdrawn length +-1) {} x roles Ebgp/RsClient/Ibgp/ConfedEbgp (is_ebgp as the daemon computes it). distinct non-trivial = distinct (frame bytes, AS width) in which the independent RFC 7606 reference receiver finds at least one fault",
+        "valid UPDATE frames built by hand (shapes legacy reach+withdraw / MP_REACH+MP_UNREACH v6 / both; all {} attribute kinds; ascending and descending order; 2- and 4-octet AS) x every entry of the corruption menu (per attribute: length field +-1/0 raw and consistent, optional / transitive / both / partial flag flips, illegal values, duplicate, omission; per block: unknown well-known, cut / total-length at every attribute boundary and 4 positions inside every attribute, total length +1/+NLRI/past end, withdrawn length +-1) {} x roles Ebgp/RsClient/Ibgp/ConfedEbgp (is_ebgp as the daemon computes it). distinct non-trivial = distinct (frame bytes, AS width) in which the independent RFC 7606 reference receiver finds at least one fault",
         all_items(false).len(),
         if thorough { "singly and in all pairs on distinct attributes" } else { "singly" }
     );
